@@ -77,6 +77,7 @@ func (r *Report) Note(s string) {
 	}
 	r.mu.Unlock()
 }
+
 // DigestR records the level-independent observables of a reader run, keyed by the digest of
 // its input: streams produced by fastgo's own writer differ between acceleration levels
 // (match choices), and observables are only comparable across levels for equal inputs.
@@ -104,6 +105,7 @@ func (r *Report) digestKeyed(id string, key string, parts ...[]byte) {
 	r.Digests[id] = key + "/" + hex.EncodeToString(h.Sum(nil))[:24]
 	r.mu.Unlock()
 }
+
 // classer: a case that can tell whether it falls under a known finding that is independent of
 // the oracle (e.g. a defect of the Go standard library that fastgo delegates to).
 type classer interface{ knownClass() string }
